@@ -445,6 +445,8 @@ def t18_mask(run, fx):
 
 
 def check(run, fx, tier, floors=True):
+    import speclayout
+    speclayout.rule_layouts(run, fx, "T18-LAYOUT", ["cff"], floors)
     import zipalign
     zipalign.rule_zip(run, fx, "T18-Z", select=(lambda b: b.file.startswith("src/cff")) if floors else None, floors=floors, floor_n=3)
     if floors or any(b.path.endswith("::visit_impl") for b in fx.bodies):
